@@ -416,6 +416,23 @@ def summary(case):
             "query": case.get("query"), "hay": case.get("hay"), "xyz_digest": digest(case["xyz"])}
 
 
+def run_impl_robust(ctx, script, cases, keys, chunk=400, crash_out=None):
+    """run the implementation on all cases; when the runner process dies (a crash inside a C kernel), bisect to
+    isolate the crashing cases and report them as {"err": "Crash"} instead of losing the whole batch"""
+    def go(cs, depth):
+        try:
+            return ctx.run_impl(script, {"cases": [{k: c.get(k) for k in keys} for c in cs]}, timeout=900)["out"]
+        except Exception as e:  # noqa: BLE001
+            if len(cs) == 1 or depth > 12:
+                return [dict(crash_out or {}, err="Crash", msg=str(e)[-300:]) for _ in cs]
+            h = len(cs) // 2
+            return go(cs[:h], depth + 1) + go(cs[h:], depth + 1)
+    outs = []
+    for s0 in range(0, len(cases), chunk):
+        outs += go(cases[s0:s0 + chunk], 0)
+    return outs
+
+
 def coq_codes(ctx, coq, sizes):
     """evaluate nl_code on every case inside coqc (vm_compute), several coqc in parallel; returns
     ({case index: code}, errors).  Only a list of small integers is parsed."""
@@ -471,11 +488,8 @@ def coq_codes(ctx, coq, sizes):
 
 
 def run_cases(ctx, cases, replaying=False):
-    outs = []
-    B = 400
-    for s0 in range(0, len(cases), B):
-        chunk = [{k: c.get(k) for k in ("api", "xyz", "cell", "c", "periodic", "query", "hay")} for c in cases[s0:s0 + B]]
-        outs += ctx.run_impl("neigh_impl.py", {"cases": chunk})["out"]
+    outs = run_impl_robust(ctx, "neigh_impl.py", cases, ("api", "xyz", "cell", "c", "periodic", "query", "hay"),
+                           crash_out={"box": None, "K": 10, "res": None, "cd": None})
     nb_idx = [i for i, c in enumerate(cases) if c["api"] == "nb"]
     nl_idx = [i for i, c in enumerate(cases) if c["api"] == "nl"]
     ctx.log("implementation ran on %d frames" % len(cases))
